@@ -1038,6 +1038,37 @@ silent("c02-s-logaddexp-default-via-local", "C02", ARRAY,
 fire("c15-logaddexp-default-log1p-abs-nan-at-minus-inf", "C15", ARRAY,
      "    return log(exp(x - shift) + exp(y - shift)) + shift\n", "    return shift + log1p(exp(-abs(x - y)))\n", "R15.8", "logaddexp")
 
+
+# ---- round 5 algebra / adjoint rules
+SUMPROD2 = "funsor/sum_product.py"
+fire("c11-scatter-add-for-every-op", "C11", TENSOR,
+     "    data = ops.scatter(destin, indices, source_data)\n", "    data = ops.scatter_add(destin, indices, source_data)\n", "R11.9", "eager_scatter_tensor")
+silent("c11-s-scatter-add-only-for-add", "C11", TENSOR,
+       "    data = ops.scatter(destin, indices, source_data)\n",
+       "    if op is ops.add:\n        data = ops.scatter_add(destin, indices, source_data)\n    else:\n        data = ops.scatter(destin, indices, source_data)\n")
+fire("c11-scatter-destination-filled-with-zero", "C11", TENSOR,
+     "    destin = ops.new_full(source.data, shape, ops.UNITS[op])\n", "    destin = ops.new_full(source.data, shape, 0.0)\n", "R11.9", "eager_scatter_tensor")
+fire("c02-markov-product-reduces-time-with-sum-op", "C02", SUMPROD2,
+     "        result = trans.reduce(prod_op, time.name)\n", "        result = trans.reduce(sum_op, time.name)\n", "R02.12", "eager_markov_product")
+fire("c02-reduction-kernel-returns-scalar-operand", "C02", TENSOR,
+     "    if not arg.output.shape:\n        return Tensor(op(ops.unsqueeze(arg.data, -1), -1), arg.inputs, dtype)\n",
+     "    if not arg.output.shape:\n        if dtype == arg.dtype == \"real\":\n            return arg\n        return Tensor(op(ops.unsqueeze(arg.data, -1), -1), arg.inputs, dtype)\n",
+     "R02.13", "eager_reduction_tensor")
+silent("c02-s-reduction-kernel-returns-operand-for-sum", "C02", TENSOR,
+       "    if not arg.output.shape:\n        return Tensor(op(ops.unsqueeze(arg.data, -1), -1), arg.inputs, dtype)\n",
+       "    if not arg.output.shape:\n        if op is ops.sum and arg.dtype == \"real\":\n            return arg\n        return Tensor(op(ops.unsqueeze(arg.data, -1), -1), arg.inputs, dtype)\n")
+fire("c03-sequential-reduce-drops-absent-vars", "C03", TERMS,
+     "def sequential_reduce(op, arg, reduced_vars):\n    arg, reduced_vars = _reduce_unrelated_vars(op, arg, reduced_vars)\n    if reduced_vars is None:\n        return arg\n",
+     "def sequential_reduce(op, arg, reduced_vars):\n    reduced_vars = frozenset(v.name for v in reduced_vars & arg.input_vars)\n", "R03.9", "sequential_reduce")
+fire("c08-multiplicity-over-set-of-sizes", "C08", TERMS,
+     "            [\n                v.output.size**v.output.num_elements\n                for v in factor_vars\n                if v.dtype != \"real\"\n            ],\n",
+     "            {\n                v.output.size**v.output.num_elements\n                for v in factor_vars\n                if v.dtype != \"real\"\n            },\n", "R08.13", "_reduce_unrelated_vars")
+fire("c08-optimizer-never-reduces-absent-vars", "C08", OPTIMIZER,
+     "    final_reduced_vars |= reduced_vars - frozenset().union(*inputs)\n", "", "R08.16", "optimize_contract_finitary_funsor")
+silent("c08-s-optimizer-absent-vars-via-local", "C08", OPTIMIZER,
+       "    final_reduced_vars |= reduced_vars - frozenset().union(*inputs)\n",
+       "    absent = reduced_vars - frozenset().union(*inputs)\n    final_reduced_vars = final_reduced_vars | absent\n")
+
 # ===== derived variants: must stay at the END of this file (they enumerate every rename() variant above) =====
 # `if c: A else: B` -> `if not c: B else: A` in the anchor functions (behaviour-preserving)
 def invert(prop, file, qual):
